@@ -172,7 +172,7 @@ def exhaustive(chk, binp, maxlen, F, nctx=9, tag="exh", api_script=None):
             b = bl[l[k]]
             (sf if l[k + 1] % 2 else mf).append((b[0], b[1], b[2], l[k + 1] // 2))
     chk.add_eval((1 if api_script else 2) * cases, joined)
-    chk.note(("public_api_generated_font_" + api_script) if api_script else "exhaustive" if nctx == 9 else "exhaustive_contexts_of_length_2",
+    chk.note(("public_api_generated_font_" + api_script) if api_script else "exhaustive_enumeration" if nctx == 9 else "exhaustive_contexts_of_length_2",
              {"max_text_length": maxlen, "alphabet": REP_NAMES, "contexts": "every pre/post context of length 0 or 1" if nctx == 9 else "every pre/post context of length 0, 1 or 2",
                             "sequences": cases, "with_a_joined_form": joined, "cases_files": len(files)})
     return mf, sf, anomalies, broken
